@@ -85,9 +85,9 @@ type c16Env struct {
 	seq     int
 }
 
-func newC16Env() *c16Env {
+func c16NewEnv() *c16Env {
 	log.SetOutput(io.Discard)
-	e := &c16Env{host: loopbackHost(), backend: doubles.NewMemBackend()}
+	e := &c16Env{host: c15LoopbackHost(), backend: doubles.NewMemBackend()}
 	e.backend.Log.Hook = func(op *doubles.Op) error {
 		if e.failOp != "" && op.Kind == e.failOp && strings.Contains(op.Key, "challenge_tokens") {
 			return errors.New("injected storage failure")
@@ -125,9 +125,9 @@ func (e *c16Env) setup(in c16In, r *rand.Rand) (*c16Hist, error) {
 	for _, kind := range in.Addrs {
 		switch kind {
 		case "free":
-			h.addrs = append(h.addrs, fmt.Sprintf("%s:%d", e.host, freePort(e.host)))
+			h.addrs = append(h.addrs, fmt.Sprintf("%s:%d", e.host, c15FreePort(e.host)))
 		case "occupied":
-			ln, err := net.Listen("tcp", fmt.Sprintf("%s:%d", e.host, freePort(e.host)))
+			ln, err := net.Listen("tcp", fmt.Sprintf("%s:%d", e.host, c15FreePort(e.host)))
 			if err != nil {
 				return nil, err
 			}
@@ -196,7 +196,7 @@ func (h *c16Hist) close() {
 	}
 }
 
-func dialable(addr string) bool {
+func c16Dialable(addr string) bool {
 	for try := 0; try < 2; try++ {
 		c, err := net.DialTimeout("tcp", addr, 300*time.Millisecond)
 		if err == nil {
@@ -238,7 +238,7 @@ func (e *c16Env) observe(h *c16Hist, err error) c16Snap {
 	s.probes = map[string]bool{}
 	for i, a := range h.addrs {
 		if h.in.Addrs[i] != "invalid" {
-			s.probes[a] = dialable(a)
+			s.probes[a] = c16Dialable(a)
 		}
 	}
 	keys := map[string]bool{}
@@ -351,7 +351,7 @@ func (e *c16Env) e2eOnce(h *c16Hist, i int) (failure string) {
 		ok := false
 		if len(cs.PeerCertificates) > 0 {
 			for _, ext := range cs.PeerCertificates[0].Extensions {
-				if ext.Id.Equal(oidACMEIdentifier) {
+				if ext.Id.Equal(c15OIDACMEIdentifier) {
 					ok = true
 				}
 			}
@@ -364,7 +364,7 @@ func (e *c16Env) e2eOnce(h *c16Hist, i int) (failure string) {
 	return
 }
 
-func encSnap(enc *emit.Enc, s c16Snap, h *c16Hist) c16Obs {
+func c16EncSnap(enc *emit.Enc, s c16Snap, h *c16Hist) c16Obs {
 	var o c16Obs
 	o.Err = s.errStr
 	enc.Bool(s.err)
@@ -423,7 +423,7 @@ func (e *c16Env) runHistory(w *emit.Writer, in c16In, desc map[string]any, r *ra
 			enc.Str(h.addrs[o.Addr])
 		}
 		enc.Str(h.ik)
-		encChal(enc, c15Chal{Type: ch.Type, Token: ch.Token, KeyAuth: ch.KeyAuthorization, IDType: ch.Identifier.Type, Ident: ch.Identifier.Value})
+		c15EncChal(enc, c15Chal{Type: ch.Type, Token: ch.Token, KeyAuth: ch.KeyAuthorization, IDType: ch.Identifier.Type, Ident: ch.Identifier.Value})
 		enc.Str(ch.DNS01TXTRecordName()).Str(ch.DNS01KeyAuthorization())
 	}
 	var occ []string
@@ -493,9 +493,9 @@ func (e *c16Env) runHistory(w *emit.Writer, in c16In, desc map[string]any, r *ra
 		for k, st := range in.Steps {
 			enc.Bool(st.Clean).Int(st.Order).Bool(false).Bool(false).Bool(false).Int(0)
 			if k == len(in.Steps)-1 {
-				obsList = append(obsList, encSnap(enc, final, h))
+				obsList = append(obsList, c16EncSnap(enc, final, h))
 			} else {
-				encSnap(enc, c16Snap{}, h)
+				c16EncSnap(enc, c16Snap{}, h)
 			}
 		}
 	} else {
@@ -512,7 +512,7 @@ func (e *c16Env) runHistory(w *emit.Writer, in c16In, desc map[string]any, r *ra
 				snap = e.observe(h, err)
 			}
 			enc.Bool(st.Clean).Int(st.Order).Bool(st.Cancel).Bool(st.Storage).Bool(st.Provider).Int(bindOf(st, snap))
-			obsList = append(obsList, encSnap(enc, snap, h))
+			obsList = append(obsList, c16EncSnap(enc, snap, h))
 			pending[st.Order] = !st.Clean
 			// now and then validate a pending challenge through the real listener
 			if e2eEvery > 0 && (e.seq+k)%e2eEvery == 0 {
@@ -577,8 +577,8 @@ func (e *c16Env) runHistory(w *emit.Writer, in c16In, desc map[string]any, r *ra
 	return nil
 }
 
-// interleavings enumerates all orders of P_i / C_i (i < n) with P_i before C_i.
-func interleavings(n int) [][]c16Step {
+// c16Interleavings enumerates all orders of P_i / C_i (i < n) with P_i before C_i.
+func c16Interleavings(n int) [][]c16Step {
 	var out [][]c16Step
 	state := make([]int, n) // 0 not presented, 1 pending, 2 done
 	var cur []c16Step
@@ -602,7 +602,7 @@ func interleavings(n int) [][]c16Step {
 	return out
 }
 
-func randomInterleaving(r *rand.Rand, n int) []c16Step {
+func c16RandomInterleaving(r *rand.Rand, n int) []c16Step {
 	state := make([]int, n)
 	var cur []c16Step
 	for len(cur) < 2*n {
@@ -623,7 +623,7 @@ func runC16(tier string, seed int64, outdir string, replay string) (retErr error
 	}()
 	w := emit.NewWriter(outdir, "C16", tier, seed)
 	defer w.Close()
-	env := newC16Env()
+	env := c16NewEnv()
 	defer env.stop()
 	r := rand.New(rand.NewSource(seed))
 	thorough := tier == "thorough"
@@ -699,21 +699,21 @@ func runC16(tier string, seed int64, outdir string, replay string) (retErr error
 	// (one address is never used for both kinds: the listener speaks the protocol of whoever opened
 	// it, and the two solvers signal "closed" through different flags; not a configuration that exists)
 	for _, kinds := range [][2]string{{"http", "http"}, {"tlsalpn", "tlsalpn"}} {
-		for _, il := range interleavings(2) {
+		for _, il := range c16Interleavings(2) {
 			if err := run(c16In{Addrs: []string{"free"}, Orders: []c16Order{O(kinds[0], 0, "a"), O(kinds[1], 0, "b")}, Steps: il},
 				map[string]any{"shape": "two-shared-address"}); err != nil {
 				return err
 			}
 		}
 	}
-	for _, il := range interleavings(2) {
+	for _, il := range c16Interleavings(2) {
 		if err := run(c16In{Addrs: []string{"free", "free"}, Orders: []c16Order{O("http", 0, "a"), O("tlsalpn", 1, "b")}, Steps: il},
 			map[string]any{"shape": "two-side-by-side"}); err != nil {
 			return err
 		}
 	}
 	// ---- B. three orders, two share an address
-	il3 := interleavings(3)
+	il3 := c16Interleavings(3)
 	nB := 30
 	if thorough {
 		nB = len(il3)
@@ -730,7 +730,7 @@ func runC16(tier string, seed int64, outdir string, replay string) (retErr error
 		}
 	}
 	// ---- C. one fault at every call position of every interleaving of two orders on one address
-	for _, il := range interleavings(2) {
+	for _, il := range c16Interleavings(2) {
 		for pos := range il {
 			for _, f := range []string{"cancel-honour", "cancel-ignore", "storage"} {
 				steps := append([]c16Step(nil), il...)
@@ -751,7 +751,7 @@ func runC16(tier string, seed int64, outdir string, replay string) (retErr error
 		}
 	}
 	// ---- D. address held by someone else / cannot be bound
-	for k, il := range interleavings(2) {
+	for k, il := range c16Interleavings(2) {
 		kindD := []string{"http", "tlsalpn"}[k%2]
 		if err := run(c16In{Addrs: []string{"occupied"}, Orders: []c16Order{O(kindD, 0, "a"), O(kindD, 0, "b")}, Steps: il},
 			map[string]any{"shape": "address-in-use"}); err != nil {
@@ -765,7 +765,7 @@ func runC16(tier string, seed int64, outdir string, replay string) (retErr error
 		}
 	}
 	// ---- E. DNS: two challenges share a record name (example.com and *.example.com), one elsewhere
-	for _, il := range interleavings(2) {
+	for _, il := range c16Interleavings(2) {
 		for _, f := range []string{"none", "append-fails-0", "delete-fails-0", "cancel-present-1", "cancel-cleanup-0", "cancel-all"} {
 			steps := append([]c16Step(nil), il...)
 			for i := range steps {
@@ -826,7 +826,7 @@ func runC16(tier string, seed int64, outdir string, replay string) (retErr error
 			}
 			in.Orders = append(in.Orders, O(kind, a, id))
 		}
-		in.Steps = randomInterleaving(r, n)
+		in.Steps = c16RandomInterleaving(r, n)
 		for i := range in.Steps {
 			switch r.Intn(9) {
 			case 0:
